@@ -1,11 +1,15 @@
 import Rq.Model.Driver
+import Rq.Model.DriverE3
 open Rq.Driver
 
 def handle (line : String) : String :=
   let w := (line.trimAscii.toString.splitOn " ").filter (· ≠ "")
   match handleE2 w with
   | some r => r
-  | none => "bad-request"
+  | none =>
+    match Rq.DriverE3.handle w with
+    | some r => r
+    | none => "bad-request"
 
 partial def loop (hin hout : IO.FS.Stream) : IO Unit := do
   let line ← hin.getLine
